@@ -70,6 +70,20 @@ fn test(c: &Case) -> TestResult {
     let headers: Vec<(Vec<u8>, Vec<u8>)> = c.headers.iter().map(|(n, v)| (n.0.clone(), v.0.clone())).collect();
     let exp = expected_headers(c.code, &headers);
     check_writer("write_headers", &exp, &|w| write_headers(w, status, headers.iter().map(|(n, v)| (&n[..], &v[..]))))?;
+    // the header list may come from any IntoIterator: adaptors without an exact size hint, and a Vec
+    {
+        let mut v1: Vec<u8> = Vec::new();
+        let r1 = write_headers(&mut v1, status, headers.iter().filter(|_| true).map(|(n, v)| (&n[..], &v[..])));
+        vensure!(matches!(r1, Ok(n) if n == exp.len()) && v1 == exp, "c20-grammar", "write_headers with a filtered iterator wrote {:?}, expected {:?}", String::from_utf8_lossy(&v1), String::from_utf8_lossy(&exp));
+        let mut idx = 0usize;
+        let mut v2: Vec<u8> = Vec::new();
+        let r2 = write_headers(&mut v2, status, std::iter::from_fn(|| { let x = headers.get(idx).map(|(n, v)| (&n[..], &v[..])); idx += 1; x }));
+        vensure!(matches!(r2, Ok(n) if n == exp.len()) && v2 == exp, "c20-grammar", "write_headers with a from_fn iterator wrote {:?}, expected {:?}", String::from_utf8_lossy(&v2), String::from_utf8_lossy(&exp));
+        let owned: Vec<(&[u8], &[u8])> = headers.iter().map(|(n, v)| (&n[..], &v[..])).collect();
+        let mut v3: Vec<u8> = Vec::new();
+        let r3 = write_headers(&mut v3, status, owned);
+        vensure!(matches!(r3, Ok(n) if n == exp.len()) && v3 == exp, "c20-grammar", "write_headers with a Vec wrote {} bytes, expected {}", v3.len(), exp.len());
+    }
     let exp_loc = [b"Location: ".as_slice(), c.location.as_bytes(), b"\n\n"].concat();
     check_writer("simple_redirect", &exp_loc, &|w| simple_redirect(w, &c.location))?;
     // http_headers: same output as write_headers over the response's header map
@@ -92,6 +106,61 @@ fn test(c: &Case) -> TestResult {
         .label_if(status.canonical_reason().is_none(), "custom-reason")
         .label_if(headers.iter().any(|(n, v)| n.is_empty() || v.is_empty()), "empty-name-or-value")
         .label_if(usable > 0, "http-response-headers"))
+}
+
+// ---------------------------------------------------------------------------------------------
+// outputs whose total length sits on block-size boundaries
+
+#[derive(Clone, Debug, Serialize, Deserialize)]
+struct Sized {
+    /// total number of output bytes
+    total: u32,
+    redirect: bool,
+}
+
+fn check_sized(what: &str, expected: &[u8], f: &dyn Fn(&mut dyn std::io::Write) -> std::io::Result<usize>) -> Result<(), Fail> {
+    let mut v: Vec<u8> = Vec::new();
+    match f(&mut v) {
+        Ok(n) => vensure!(v == expected && n == expected.len(), "c20-grammar", "{what}: {} bytes written, {n} reported, expected {} (first difference at {:?})", v.len(), expected.len(), v.iter().zip(expected.iter()).position(|(a, b)| a != b)),
+        Err(e) => vfail!("c20-error", "{what}: writing into a Vec failed: {e}"),
+    }
+    let len = expected.len();
+    let mut caps: Vec<usize> = vec![0, 1, len / 2, len.saturating_sub(4097), len.saturating_sub(4096), len.saturating_sub(4095), len.saturating_sub(1), len, len + 1, len + 4096];
+    caps.sort_unstable();
+    caps.dedup();
+    for cap in caps {
+        let mut buf = vec![0x55u8; cap];
+        let (res, written) = {
+            let mut w: &mut [u8] = &mut buf[..];
+            let r = f(&mut w);
+            (r, cap - w.len())
+        };
+        vensure!(written <= len && buf[..written] == expected[..written], "c20-grammar", "{what}: capacity {cap}: the {written} bytes written are not a prefix of the expected text");
+        match res {
+            Ok(n) => vensure!(cap >= len && n == len && written == len, "c20-short-success", "{what}: capacity {cap}: reported success ({n} bytes, {written} written) but {len} bytes are needed"),
+            Err(_) => vensure!(cap < len, "c20-error", "{what}: failed with a {cap}-byte destination although {len} bytes suffice"),
+        }
+    }
+    Ok(())
+}
+
+fn test_sized(c: &Sized) -> TestResult {
+    let total = c.total as usize;
+    if c.redirect {
+        let fixed = "Location: \n\n".len();
+        let loc: String = (0..total - fixed).map(|i| (b'a' + (i % 26) as u8) as char).collect();
+        let exp = [b"Location: ".as_slice(), loc.as_bytes(), b"\n\n"].concat();
+        check_sized("simple_redirect", &exp, &|w| simple_redirect(w, &loc))?;
+    } else {
+        // Status: 200 OK + two headers, the second value padded to reach the total
+        let h1: (Vec<u8>, Vec<u8>) = (b"Content-Type".to_vec(), b"text/plain".to_vec());
+        let base = expected_headers(200, &[h1.clone(), (b"X-Pad".to_vec(), vec![])]).len();
+        let pad: Vec<u8> = (0..total - base).map(|i| b'0' + (i % 10) as u8).collect();
+        let headers = vec![h1, (b"X-Pad".to_vec(), pad)];
+        let exp = expected_headers(200, &headers);
+        check_sized("write_headers", &exp, &|w| write_headers(w, http::StatusCode::OK, headers.iter().map(|(n, v)| (&n[..], &v[..]))))?;
+    }
+    Ok(Outcome::new(true))
 }
 
 fn header_bytes(max: usize) -> BoxedStrategy<Vec<u8>> {
@@ -152,11 +221,37 @@ pub fn property() -> Property {
         ],
         subs: vec![
             all_codes,
+            Box::new(EnumSub::<Sized> {
+                name: "block_boundaries",
+                rule: "outputs of write_headers and simple_redirect whose total length is 2^k-1, 2^k, 2^k+1 for k = 6..17 and multiples of 4096 / 8192 +-1: exact bytes and count into a Vec, and bounded destinations around len-4096 .. len+1; distinct by construction",
+                exhaustive: Box::new(|_| true),
+                guard_each: true,
+                test: Box::new(test_sized),
+                body: Box::new(|_t, shard, n, sink| {
+                    let mut totals: Vec<u32> = Vec::new();
+                    for k in 6..=17u32 {
+                        totals.extend([(1 << k) - 1, 1 << k, (1 << k) + 1]);
+                    }
+                    for m in [3u32, 5, 6, 7, 9, 10, 15] {
+                        totals.extend([m * 4096 - 1, m * 4096, m * 4096 + 1]);
+                    }
+                    totals.extend([100, 1000, 1500, 4000, 5000, 65535 + 80]);
+                    let mut k = 0usize;
+                    for t in totals {
+                        for redirect in [false, true] {
+                            k += 1;
+                            if k % n == shard && !sink.check(Sized { total: t, redirect }) {
+                                return;
+                            }
+                        }
+                    }
+                }),
+            }),
             prop_sub(
                 "generated",
                 "status codes 100..=999 x generated header lists (0..7 headers, empty names/values, arbitrary bytes without newlines) x location strings, for write_headers, simple_redirect and http_headers (via http::Response), against Vec and every bounded capacity; non-trivial = >=1 header; distinct = hash of the case",
-                100_000,
-                2_000_000,
+                400_000,
+                6_000_000,
                 |_| boxed((100u16..=999, header_list(), "[ -~]{0,60}|\\PC{0,12}").prop_map(|(code, headers, location)| Case { code, headers, location })),
                 test,
             ),
